@@ -38,7 +38,9 @@ THEOREMS = [P + t for t in (
     "generate_rejects_mixed_pool_details",
     # single-resource delegations among the entries; annotate_delegations_and_pools / get_delegations
     "incorporate_with_singles", "generate_nodes", "annotate_readback", "annotate_rejects_shared_node", "annotate_readback_real",
-    "singlesOf_spec", "single_delegation_readback", "single_delegation_both")]
+    "singlesOf_spec", "single_delegation_readback", "single_delegation_both",
+    # histories on one container with object identity: pools edited / replaced / completed between indexing runs
+    "hist_index_fresh", "hist_pools_roundtrip", "hist_pools_roundtrip_any_history")]
 TRUSTED_BASE = [
     "gen/delegconsts.py: key/sentinel constants by import; the strings to_json/from_json (and the module functions they call) can use "
     "as keys, resolved by value through any alias, are exactly these constants; behavioural probes of the dispatch (to_json writes the "
@@ -58,11 +60,15 @@ TRUSTED_BASE = [
     "and discharge DetOk from C03's losslessness theorems; the label value validators (regex/range: C16's subject) are the abstract "
     "predicate `valid` in the theorems and accept-all in the driver",
     "Python sets (Pool.for_) are duplicate-free lists; dict iteration order = insertion order",
+    "Model/DelegHeap.lean: Pool objects are numbered heap cells, pool_by_id and pools_by_delegation hold numbers, the setters of Pool "
+    "rewrite a cell (hand-mirrored; the pseq stream of the correspondence edits, replaces and completes pools between indexing runs and "
+    "generates with and without a fresh run)",
 ]
 ASSUMPTIONS = [
     "delegation ids, pool ids and node ids are str; pool names read from JSON are str or null",
-    "a Pool is not mutated between build_index_by_delegation_id and generate_delegations_by_node_id, and incorporate_delegation "
-    "is applied to a Pools whose by-delegation index has not been built (the index aliases the pool objects)",
+    "the pools clause is claimed for a generate that follows an indexing run with no setter call in between (a Pool edited after the "
+    "run is generated under the delegation id it had at the run: modelled in Model/DelegHeap.lean and compared differentially, not "
+    "judged); incorporate_delegation into an indexed container is judged by the oracle only, not modelled",
     "label values offered to the model are ones the Labels validators accept",
     "a Delegation object is not mutated after it was handed to add_delegations (the container aliases it; the model stores values)",
 ]
@@ -73,7 +79,10 @@ RULE = ("pool names and delegation ids in every stream are drawn about every thi
         "every order of the formats, built through the API and decoded from mutated JSON; add_delegations calls of 0..4 arguments with a "
         "duplicate / other-type argument at every position; pool families of 1..4 pools x 5 nodes x 3 delegation ids through both "
         "construction paths, read back in dictionary order and in given node orders (all orders for <= 3 nodes); per-node delegation lists for "
-        "incorporate; families plus per-node single-resource delegations through annotate_delegations_and_pools. non-trivial = >= 2 entries or "
+        "incorporate; families plus per-node single-resource delegations through annotate_delegations_and_pools; histories on one Pools object "
+        "(1..4 pools, some unfinished; 1..3 rounds of 0..3 edits - re-delegation, completion, more / other nodes, another defining node, other "
+        "details, a replaced or new pool, an incorporated node - each followed by an indexing run and generate; 20 deterministic histories "
+        "per type). non-trivial = >= 2 entries or "
         ">= 1 pool with >= 2 reference nodes; distinct by canonical request")
 
 CORPUS = os.path.join(core.CORPUS_DIR, "C12")
@@ -375,12 +384,20 @@ def impl_eval(req):
                     break
             return ["ok", [delegs_canon(ds, cl), err]]
         if op == "pseq":
-            ps, out = dm.Pools(atype=T), []
+            ps, out, objs = dm.Pools(atype=T), [], []
             for st in x:
                 try:
                     if st[0] == "add":
-                        ps.add_pool(pool=build_pool(st[1], dm, cl))
+                        p = build_pool(st[1], dm, cl)
+                        objs.append(p)                      # the object exists (and can be edited later) even if add_pool refuses it
+                        ps.add_pool(pool=p)
                         out.append(None)
+                    elif st[0] == "mut":
+                        if st[1] < len(objs):
+                            apply_mut(objs[st[1]], st[2], st[3], cl)
+                            out.append(None)
+                        else:
+                            out.append("skip")
                     elif st[0] == "index":
                         ps.build_index_by_delegation_id()
                         out.append(None)
@@ -910,10 +927,21 @@ def gen_requests(ctx, n_sets, n_fams):
     for i in range(n_sets // 3):
         cty = rng.choice(TYPES)
         reqs.append(["calls", cty, gen_calls(rng, cty)])
+    for cty, steps in corner_phists():
+        if all(st[0] != "inc" for st in steps):
+            reqs.append(["pseq", cty, steps])
     rng = ctx.sub_rng("corr-pseq")
     for i in range(n_fams // 2):
         cty = rng.choice(TYPES)
         reqs.append(["pseq", cty, gen_pseq(rng, cty)])
+    rng = ctx.sub_rng("corr-phist")
+    for i in range(n_fams // 2):
+        # kept pools edited / replaced / completed between indexing runs; generate also WITHOUT a fresh run (stale keys, partial index)
+        cty = rng.choice(TYPES)
+        steps = gen_phist(rng, cty, with_inc=False)
+        if rng.random() < 0.4:
+            steps.insert(rng.randrange(len(steps) + 1), ["gen"])
+        reqs.append(["pseq", cty, steps])
     rng = ctx.sub_rng("corr-sets")
     for i in range(n_sets):
         cty = rng.choice(TYPES)
@@ -985,6 +1013,8 @@ def correspondence(ctx, res):
             res.count("%s:%s" % (r[0], i[0] if i[0] == "ok" else "err:" + i[1]))
         if nontrivial(r):
             res.nontrivial.add(canon(r))
+        if r[0] == "pseq" and any(st[0] == "mut" for st in r[2]):
+            res.count("pseq:with-edits-of-kept-pools")
         count_names(res, r, r[0])
         request_verdict(r, i, res)
         mj = json.loads(m)
@@ -1492,6 +1522,279 @@ def check_pools(cty, fam, res, order_rng=None):
             res.violation("C12:pools:roundtrip:details", "pool details read back differ", case)
 
 
+# --------------------------------------------------------------------------
+# histories on ONE Pools object: pools kept in the container are mutated (re-delegated, completed, given more nodes), replaced or
+# added between indexing runs, an indexing run is rejected half-way and repeated, nodes are incorporated into an indexed container.
+# The property is evaluated at every generate that directly follows an indexing run that returned (cf. seeded C12-r6-1).
+
+
+def apply_mut(p, what, val, cl):
+    """one setter call on a Pool object that may already sit in a container"""
+    if what == "deleg":
+        p.set_delegation_id(delegation_id=val)
+    elif what == "on":
+        p.set_defined_on(val)
+    elif what == "det":
+        p.set_pool_details(mk_det(val, cl))
+    elif what == "add1":
+        p.add_defined_for(val)
+    elif what == "addl":
+        p.add_defined_for(list(val))
+    elif what == "setfor":
+        p.set_defined_for(list(val))
+    else:
+        raise core.Infra("unknown pool mutation %s" % what)
+
+
+def pool_finished(p, T, cl):
+    """the property's quantifier for one pool, read off the object: of the container's type, delegation id, defining node,
+    at least one node it applies to, non-empty details of the right kind"""
+    if p.type != T or p.delegation_id is None or p.on_ is None or not p.for_ or p.pool_details is None:
+        return False
+    if kind_of(p.pool_details, cl) != T.name:
+        return False
+    return any(v is not None and v != 0 for v in (p.pool_details.to_dict() or {}).values())
+
+
+def pools_clash_free(pools):
+    seen = set()
+    for p in pools:
+        if p.on_ in p.for_:
+            return False
+        for n in [p.on_] + sorted(p.for_):
+            if (n, p.delegation_id) in seen:
+                return False
+            seen.add((n, p.delegation_id))
+    return True
+
+
+def exc_of(fn):
+    try:
+        fn()
+    except Exception as e:
+        return e
+    return None
+
+
+def check_phist(cty, steps, res, order_rng=None):
+    """steps: ["add", pool spec] | ["mut", k, what, value] (k-th constructed pool object) | ["inc", node, delegation specs] |
+    ["index"] | ["gen"].  After an indexing run that RETURNED, with nothing done to the pools since, and all pools finished:
+    the index names exactly the delegation ids / nodes of the pools as they are now, generate yields one definition per pool
+    on its defining node and one reference per node it applies to (or raises when a node would need two entries under one
+    delegation id), and reading that back through the text reconstructs the pools as they are now."""
+    dm, cl, K = mods()
+    T = dm.DelegationType[cty]
+    ps, objs = dm.Pools(atype=T), []
+    fresh, attempts, prev_failed, since = False, 0, False, []
+
+    def tag():
+        if attempts <= 1:
+            return "first-index"
+        return "reindex-after-" + ("failed-index+" if prev_failed else "") + ("+".join(sorted(set(since))) or "nothing")
+    last_tag = "never-indexed"
+    for i, st in enumerate(steps):
+        case = {"kind": "phist", "cty": cty, "steps": steps[:i + 1]}
+        k = st[0]
+        if k == "add":
+            fresh = False
+            since.append("add")
+            try:
+                p = build_pool(st[1], dm, cl)
+            except Exception:
+                continue
+            objs.append(p)
+            try:
+                ps.add_pool(pool=p)
+            except Exception:
+                pass
+        elif k == "mut":
+            if st[1] < len(objs):
+                fresh = False
+                since.append("re-delegation" if st[2] == "deleg" else "pool-edit")
+                try:
+                    apply_mut(objs[st[1]], st[2], st[3], cl)
+                except Exception:
+                    pass
+        elif k == "inc":
+            fresh = False
+            since.append("incorporate")
+            try:
+                ps.incorporate_delegation(node_id=st[1], deleg=build_delegs(cty, st[2], dm, cl))
+            except Exception:
+                pass
+        elif k == "index":
+            attempts += 1
+            last_tag = tag()
+            finished = all(pool_finished(p, T, cl) for p in ps.pool_by_id.values())
+            e = exc_of(ps.build_index_by_delegation_id)
+            res.count("phist:index:" + last_tag.split("+")[0] + (":raises" if e else ":returns"))
+            if e is not None and finished:
+                res.violation("C12:phist:finished-pools-rejected:%s:%s" % (err_kind(e), last_tag),
+                              "build_index_by_delegation_id raises although every pool of the container is finished: %s" % e, case)
+            fresh = e is None
+            prev_failed, since = e is not None, []
+        elif k == "gen":
+            pools = list(ps.pool_by_id.values())
+            if not (fresh and pools and all(pool_finished(p, T, cl) for p in pools)):
+                res.count("phist:gen:not-judged")
+                raises(ps.generate_delegations_by_node_id)
+                continue
+            res.count("phist:gen:judged:" + last_tag.split("+")[0])
+            want = pools_canon(ps, cl)
+            ids = {p.delegation_id for p in pools}
+            try:
+                got_ids = ps.get_delegation_ids()
+                got_nodes = {d: ps.get_node_ids(delegation_id=d) for d in ids}
+            except Exception as e:
+                res.violation("C12:phist:index-queries-raise:%s:%s" % (err_kind(e), last_tag), "get_delegation_ids/get_node_ids raise after indexing: %s" % e, case)
+                return
+            want_nodes = {d: set().union(*[set(p.for_) for p in pools if p.delegation_id == d]) for d in ids}     # the nodes the pools apply to
+            if got_ids != ids or got_nodes != want_nodes:
+                res.violation("C12:phist:index-stale:%s" % last_tag, "after build_index_by_delegation_id the index does not name the delegation ids / "
+                              "nodes of the pools as they are now", case, expected=[sorted(ids), sorted((d, sorted(n)) for d, n in want_nodes.items())],
+                              observed=[sorted(got_ids), sorted((d, sorted(n)) for d, n in got_nodes.items())])
+                return
+            got = []
+            e = exc_of(lambda: got.append(ps.generate_delegations_by_node_id()))
+            if not pools_clash_free(pools):
+                if e is None:
+                    res.violation("C12:phist:clash-not-rejected:%s" % last_tag, "a node needs two entries under one delegation id and generate did not raise", case)
+                    return
+                continue
+            if e is not None:
+                res.violation("C12:phist:generate-raises:%s:%s" % (err_kind(e), last_tag), "generate raises on finished clash-free pools: %s" % e, case)
+                return
+            r = got[0]
+            bad = None
+            if sum(len(ds.delegations) for ds in r.values()) != sum(1 + len(p.for_) for p in pools):
+                bad = "count"
+            for p in pools:
+                d = r.get(p.on_) and r[p.on_].delegations.get(p.delegation_id)
+                if d is None or d.format != dm.DelegationFormat.PoolDefinition or d.pool_id != p.pool_id or not det_eq(d.delegation_details, p.pool_details):
+                    bad = bad or "definition"
+                for n in p.for_:
+                    d = r.get(n) and r[n].delegations.get(p.delegation_id)
+                    if d is None or d.format != dm.DelegationFormat.PoolReference or d.pool_id != p.pool_id or d.delegation_details is not None:
+                        bad = bad or "reference"
+            if bad:
+                res.violation("C12:phist:shape:%s:%s" % (bad, last_tag), "generate after a repeated indexing run: not one definition per pool on its defining "
+                              "node and one reference on each node it applies to, under the pool's delegation id", case, expected=want,
+                              observed=[[n, delegs_canon(d, cl)] for n, d in sorted(r.items())])
+                return
+            items = list(r.items())
+            if order_rng is not None:
+                order_rng.shuffle(items)
+            try:
+                q = dm.Pools(atype=T)
+                for n, ds in items:
+                    q.incorporate_delegation(node_id=n, deleg=dm.Delegations.from_json(json_str=ds.to_json(), atype=T))
+            except Exception as e:
+                res.violation("C12:phist:readback-raises:%s:%s" % (err_kind(e), last_tag), "reading the generated delegations back raises: %s" % e, case)
+                return
+            if pools_canon(q, cl) != want:
+                res.violation("C12:phist:roundtrip:%s" % last_tag, "pools read back differ from the pools as they are now", case, expected=want, observed=pools_canon(q, cl))
+                return
+            if pools_canon(ps, cl) != want:
+                res.violation("C12:phist:generate-mutates:%s" % last_tag, "generate changed the pools", case)
+                return
+
+
+def corner_phists():
+    out = []
+    for cty in TYPES:
+        d1 = ["CAPACITY", to_wire({"core": 32, "ram": 128})] if cty == "CAPACITY" else ["LABEL", to_wire({"vlan_range": "1-100"})]
+        d2 = ["CAPACITY", to_wire({"disk": 1000, "unit": 2})] if cty == "CAPACITY" else ["LABEL", to_wire({"vlan_range": "101-200", "ipv4_range": "192.168.1.1-192.168.1.10"})]
+
+        def pool(pid, deleg, on, fr, det=d1, mode="ctor"):
+            return {"ty": cty, "id": pid, "deleg": deleg, "on": on, "for": fr, "det": det, "mode": mode}
+        two = [["add", pool("pool1", "del1", "n1", ["n2", "n3"])], ["add", pool("pool2", "del2", "n2", ["n1", "n4"], d2)]]
+        ig = [["index"], ["gen"]]
+        out += [
+            # a pool of the container is re-delegated (to a new id / to the id of its neighbour / back) between two indexing runs
+            (cty, two + ig + [["mut", 1, "deleg", "del3"]] + ig),
+            (cty, two + ig + [["mut", 0, "deleg", "del3"]] + ig + [["mut", 0, "deleg", "del1"]] + ig),
+            (cty, two + ig + [["mut", 1, "deleg", "del1"]] + ig),
+            (cty, [["add", pool("pool1", "del1", "n1", ["n2"])], ["add", pool("pool2", "del1", "n3", ["n4"], d2)]] + ig + [["mut", 1, "deleg", "del2"]] + ig),
+            # an indexing run is rejected on an unfinished pool that follows finished ones; the pool is completed in place
+            (cty, [two[0], ["add", pool("pool2", "del2", "n2", ["n1", "n3"], None)], ["index"], ["mut", 1, "det", d2]] + ig),
+            (cty, [two[0], ["add", pool("pool2", None, "n2", ["n1", "n3"], d2)], ["index"], ["gen"], ["mut", 1, "deleg", "del2"]] + ig),
+            (cty, [two[0], ["add", pool("pool2", "del2", None, ["n1", "n3"], d2, "set")], ["index"], ["mut", 1, "on", "n2"]] + ig),
+            (cty, [two[0], ["add", pool("pool2", "del2", "n2", [], d2, "set")], ["index"], ["mut", 1, "add1", "n4"]] + ig),
+            (cty, [["add", pool("pool0", "del0", "n5", ["n4"], None)]] + two + [["index"], ["mut", 0, "det", d2]] + ig),
+            # the pool is moved / gets more nodes / other details / is replaced by a new object of the same name between two runs
+            (cty, two + ig + [["mut", 0, "on", "n5"]] + ig),
+            (cty, two + ig + [["mut", 0, "add1", "n5"], ["mut", 1, "addl", ["n3", "n5"]]] + ig),
+            (cty, two + ig + [["mut", 0, "setfor", ["n4"]]] + ig),
+            (cty, two + ig + [["mut", 1, "det", d1]] + ig),
+            (cty, two + ig + [["add", pool("pool2", "del3", "n4", ["n5"], d1)]] + ig),
+            (cty, two + ig + [["add", pool("pool3", "del1", "n4", ["n5"], d2)]] + ig),
+            # the replaced object is re-delegated afterwards: it is no longer in the container
+            (cty, two + ig + [["add", pool("pool2", "del3", "n4", ["n5"], d1)], ["mut", 1, "deleg", "del9"]] + ig),
+            # a re-delegation that makes a node need two entries under one id: generate has to raise after the second run
+            (cty, [["add", pool("pool1", "del1", "n1", ["n2"])], ["add", pool("pool2", "del2", "n2", ["n1"], d2)]] + ig + [["mut", 1, "deleg", "del1"]] + ig),
+            # nodes incorporated into an indexed container (a reference under another delegation id re-delegates the pool)
+            (cty, two + ig + [["inc", "n5", [{"ty": cty, "id": "del7", "fmt": "PoolReference", "pool": "pool2", "det": None}]]] + ig),
+            (cty, two + ig + [["inc", "n5", [{"ty": cty, "id": "del2", "fmt": "PoolReference", "pool": "pool2", "det": None}]]] + ig),
+            # three runs in a row, nothing in between
+            (cty, two + ig + ig + ig),
+        ]
+    return out
+
+
+def gen_phist(rng, cty, with_inc=True):
+    """a history: a mostly finished family, an indexing run, then rounds of edits (re-delegation, completion of an unfinished
+    pool, more nodes, another defining node, other details, a replaced or a new pool, incorporated nodes) each followed by a run"""
+    fam = gen_pspecs(rng, cty, wellformed=True)
+    dids = sorted({p["deleg"] for p in fam}) + rng.sample(id_choices(rng, ["del1", "del2", "primary", "del9"], 3), 2)
+    undone = {}
+    for k, p in enumerate(fam):
+        r = rng.random()
+        if r < 0.10:
+            undone[k], p["det"] = ["det", p["det"]], None
+        elif r < 0.18:
+            undone[k], p["deleg"] = ["deleg", p["deleg"]], None
+        elif r < 0.24 and p["mode"] == "set":
+            undone[k], p["on"] = ["on", p["on"]], None
+        elif r < 0.30 and p["mode"] == "set" and not p.get("forops"):
+            undone[k], p["for"] = ["addl", p["for"]], []
+    steps = [["add", p] for p in fam]
+    if rng.random() < 0.15:
+        steps.insert(rng.randrange(len(steps) + 1), ["index"])
+    nobj = len(fam)
+    for rnd in range(rng.randint(1, 3)):
+        steps += [["index"], ["gen"]] if rng.random() < 0.85 else [["index"]]
+        for _ in range(rng.randint(0 if rnd else 1, 3)):
+            r = rng.random()
+            k = rng.randrange(nobj)
+            if undone and r < 0.45:
+                k = rng.choice(sorted(undone))
+                steps.append(["mut", k] + undone.pop(k))
+            elif r < 0.5:
+                steps.append(["mut", k, "deleg", rng.choice(dids)])
+            elif r < 0.6:
+                steps.append(["mut", k, "add1", rng.choice(NODES)])
+            elif r < 0.65:
+                steps.append(["mut", k, "addl", rng.sample(NODES, rng.randint(0, 2))])
+            elif r < 0.7:
+                steps.append(["mut", k, "setfor", rng.sample(NODES, rng.randint(1, 3))])
+            elif r < 0.77:
+                steps.append(["mut", k, "on", rng.choice(NODES)])
+            elif r < 0.84:
+                steps.append(["mut", k, "det", gen_det(rng, cty, allow_empty=rng.random() < 0.1)])
+            elif r < 0.93 or not with_inc:
+                p = gen_pspecs(rng, cty, wellformed=True)[0]
+                if rng.random() < 0.4:
+                    p["id"] = rng.choice(fam)["id"]
+                p["deleg"] = rng.choice(dids)
+                steps.append(["add", p])
+                nobj += 1
+            else:
+                p = rng.choice(fam)
+                steps.append(["inc", rng.choice(NODES), [{"ty": cty, "id": rng.choice(dids + [p["deleg"] or "del1"] * 3), "fmt": "PoolReference", "pool": p["id"], "det": None}]])
+    steps += [["index"], ["gen"]]
+    return steps
+
+
 def gen_topo_adv(rng):
     """gen_topo_spec plus what single_delegation must refuse or treat differently: a pool on a node that has capacities / labels of
     its own, a switch that is not a stitch node with labelled ports, a clash inside the pools"""
@@ -1686,6 +1989,8 @@ def run_case(case, res):
         check_call(case["cty"], (sh[0], tuple(sh[1]) if sh[1] else None, sh[2], sh[3]), res)
     elif k == "topology":
         check_topology(case, res)
+    elif k == "phist":
+        check_phist(case["cty"], case["steps"], res)
 
 
 def set_wf(cty, specs):
@@ -1741,9 +2046,21 @@ def oracle(ctx, res, n=None):
         if fam and family_valid(cty, fam):
             res.evaluations += 1
             check_pools(cty, fam, res)
+    for cty, steps in corner_phists():
+        res.evaluations += 1
+        check_phist(cty, steps, res)
     res.evaluations += 1
     check_topology(gen_topo_spec(None, fixed=True), res)
     # random
+    rng = ctx.sub_rng("oracle-phist")
+    for i in range(n // 3):
+        cty = rng.choice(TYPES)
+        steps = gen_phist(rng, cty)
+        res.evaluations += 1
+        if sum(1 for st in steps if st[0] == "index") >= 2 and sum(1 for st in steps if st[0] == "add") >= 2:
+            res.nontrivial.add(canon(["phist", cty, steps]))
+        count_names(res, steps, "oracle-phist")
+        check_phist(cty, steps, res, order_rng=rng if i % 2 else None)
     rng = ctx.sub_rng("oracle")
     for i in range(n):
         cty = rng.choice(TYPES)
